@@ -118,6 +118,18 @@ pub fn one(ctx: &Ctx) -> Stats {
         } else {
             nuc_seq(&mut rng, len)
         };
+        // one case in 150: more than a thousand bases drawn from two corners that share a coordinate (A/C: x = 0,
+        // A/T/U: y = 0) with a power-of-two square: that coordinate is halved at every base, exactly, down through the
+        // subnormal range to 2^-1074 and then to 0 — it must be S * 2^-(i+2) at base i, nothing else
+        let (seq, s, shrinking) = if idx % 150 == 9 {
+            let pair: &[u8] = if rng.chance(1, 2) { b"ACac" } else { b"ATUatu" };
+            let l = rng.usize(1000, 1100);
+            st.class("two-corner record > 1000 bases (subnormal coordinates)");
+            ((0..l).map(|_| *rng.pick(pair)).collect::<Vec<u8>>(), *rng.pick(&[1u64, 2, 16, 1 << 20]), Some(pair[1] == b'C'))
+        } else {
+            (seq, s, None)
+        };
+        let len = seq.len();
         let case = || Json::obj().set("seq", Json::bytes(&seq)).set("S", Json::Int(s as i128));
         st.case(!seq.is_empty(), hash_bytes(&seq) ^ mix(s));
         st.class(if len > EXACT_POINTS { "longer-than-exact-range" } else { "exact-range" });
@@ -147,6 +159,24 @@ pub fn one(ctx: &Ctx) -> Stats {
         if full[..cut] != pre[..] {
             st.violate("cgr.prefix_determinism", format!("points of the {}-base prefix differ from the first {} points of the full sequence", cut, cut), case());
             return;
+        }
+        if let Some(x_shrinks) = shrinking {
+            for (i, p) in full.iter().enumerate() {
+                let got = if x_shrinks { p.0 } else { p.1 };
+                // S * 2^-(i+2), computed by exact halving of an exact power of two
+                let mut e = s as f64;
+                for _ in 0..i + 2 {
+                    e *= 0.5;
+                }
+                if got.to_bits() != e.to_bits() {
+                    st.violate(
+                        "cgr.midpoint.subnormal",
+                        format!("base {}: the coordinate shared by both corners is {:e}, the midpoint rule gives exactly {:e} (S = {})", i, got, e, s),
+                        case(),
+                    );
+                    return;
+                }
+            }
         }
         if idx % 5003 == 2 {
             st.sample(case().set("points", Json::u(full.len())).set("last_point", full.last().map_or(Json::Null, |p| Json::s(format!("({}, {})", p.0, p.1)))));
